@@ -2,6 +2,7 @@
 mod c04;
 mod c05;
 mod c11;
+mod c14;
 
 use vrt::Tier;
 
@@ -38,6 +39,7 @@ fn main() {
         "C04" => c04::main(&args),
         "C05" => c05::main(&args),
         "C11" => c11::main(&args),
+        "C14" => c14::main(&args),
         "c05-child" => c05::child(&args),
         _ => usage(),
     }
